@@ -3,6 +3,11 @@ import Mathlib.Tactic.LinearCombination
 import Splipy.Lemmas.C03Dispatch
 import Splipy.Lemmas.C03Nonrational
 import Splipy.Properties.C01
+import Splipy.Properties.C02
+import Splipy.Lemmas.C03Real
+import Splipy.Lemmas.C03RealModel
+import Splipy.Lemmas.C03DerivSplineObj
+import Mathlib.Data.Real.Archimedean
 
 /-!
 # C03 — derivatives are the true partial derivatives of the evaluated map
@@ -21,73 +26,141 @@ variable {K : Type} [Field K] [LinearOrder K] [FloorRing K]
 section nonrational
 variable [IsStrictOrderedRing K]
 
-/-- The points of one direction of a call are "good": exact w.r.t. the knot tolerance (a knot or at least
-`tol` away from every knot — automatic after snapping when distinct knots are `tol` apart,
-`C01_evaluate_snap`), inside the domain, and not the start of a non-periodic direction approached from the
-left (there the code returns the zero row, `C01_start_from_left`). -/
-def C03_GoodPoints (b : Basis K) (tol : K) (ts : List K) (a : Bool) : Prop :=
-  ∀ k, k < ts.length →
-    b.ExactAt tol (ts.getD k 0) ∧ b.start ≤ ts.getD k 0 ∧ ts.getD k 0 ≤ b.stop ∧
-      (b.periodic = -1 → ¬ (ts.getD k 0 = b.start ∧ a = false))
+/-- **C01 for derivative rows.**  For a valid basis and an admissible parameter (`Basis.Admissible`: exact
+w.r.t. the knot tolerance, inside the domain of a non-periodic basis, wrapped point exact for a periodic one)
+the number the code uses for function `j`, derivative order `d`, side `a` is the specification value
+`Basis.rowSpec`: the one-sided `d`-th derivative `dB` of the B-spline (non-periodic; the zero row at the domain
+start approached from the left), the sum of its wrapped images (periodic, any real parameter) — for EVERY
+derivative order (orders ≥ the spline order give zero on both sides). -/
+theorem C03_row_is_spec {b : Basis K} (hv : b.Valid) {tol u : K} (htol : 0 < tol)
+    (h : b.Admissible tol u) (d : ℕ) (a : Bool) {j : ℕ} (hj : j < b.numFunctions) :
+    b.drowVal tol u d a j = b.rowSpec u a d j :=
+  Basis.drowVal_eq_rowSpec hv htol h d a hj
 
-/-- C01 for the rows of one direction: every entry of `basis.evaluate(t_k, d, side)` is the specification
-value `Basis.rowSpec` — the one-sided `d`-th derivative `dB` of the B-spline (non-periodic), the sum of its
-wrapped images (periodic) — for EVERY derivative order (orders ≥ the spline order give zero on both sides). -/
-theorem C03_rows {b : Basis K} (hv : b.Valid) {tol : K} (htol : 0 < tol) (ts : List K) (d : ℕ) (a : Bool)
-    (hpts : C03_GoodPoints b tol ts a) :
-    RowsAre b tol ts d a (fun k j => b.rowSpec (ts.getD k 0) a d j) := by
-  intro k hk j hj
-  obtain ⟨hex, h1, h2, hnot⟩ := hpts k hk
-  show (b.evaluate tol (ts.getD k 0) d a).getD j 0 = b.rowSpec (ts.getD k 0) a d j
-  unfold Basis.rowSpec
-  by_cases hd : d < b.order
-  · by_cases hper : b.periodic < 0
-    · have hper' : b.periodic = -1 := by have := hv.periodic_ge; omega
-      rw [if_pos hper]
-      exact C01_value_deriv_open hv hper' htol hex h1 h2 (hnot hper') hd hj
-    · rw [if_neg hper]
-      exact C01_value_deriv_periodic hv (by omega) htol hex h1 h2 a hd hj
-  · have hd' : b.order ≤ d := by omega
-    rw [C01_high_derivative_zero b tol _ hd' a]
-    have hz : (Array.replicate b.numFunctions (0 : K)).getD j 0 = 0 := by
-      unfold Array.getD; split <;> simp
-    rw [hz]
-    by_cases hper : b.periodic < 0
-    · rw [if_pos hper, C01_high_derivative_zero_spec b hv.order_pos _ _ hd']
-    · rw [if_neg hper]
-      symm
-      apply Finset.sum_eq_zero
-      intro i _
-      exact C01_high_derivative_zero_spec b hv.order_pos _ _ hd' i
+/-- **Curves, non-rational** (open or periodic basis, `tensor` either way, every derivative order, either
+side).  `derivative(us, d, above, tensor)` succeeds and entry `(i, c)` is `Σ_j rowSpec_j(uᵢ) · P_j[c]`: the
+`d`-th one-sided derivative of the evaluated map (`C03_nonrational_curve_open` / `_periodic` spell the sum
+out as the specification's `splineDeriv`). -/
+theorem C03_nonrational_curve {o : Obj K} {b1 : Basis K} (hb : o.bases = #[b1]) (hv1 : b1.Valid)
+    {nc : ℕ} (hs : o.cps.shape = [b1.numFunctions, nc]) (hr : o.rational = false) {tol : K}
+    (htol : 0 < tol) {us : List K} (hus : ∀ u ∈ us, b1.Admissible tol u) (d : ℕ) (a : Bool)
+    (tensor : Bool) :
+    ∃ res, o.derivativeGeneric tol [us] [d] [a] tensor = .ok res ∧
+      ∀ i c, i < us.length → c < nc →
+        res.get (i * nc + c) =
+          ∑ j ∈ Finset.range b1.numFunctions,
+            b1.rowSpec (us.getD i 0) a d j * o.cps.get (j * nc + c) := by
+  obtain ⟨res, hres, hget⟩ := Obj.derivative1_nonrational hb hs hr tol us d a tensor
+    (Obj.not_outOfDomain1 hb hv1 htol hus)
+  refine ⟨res, hres, fun i c hi hc => ?_⟩
+  rw [hget i c hi hc]
+  exact Finset.sum_congr rfl (fun j hj => by
+    rw [C03_row_is_spec hv1 htol (hus _ (getD_mem_of_lt us hi 0)) d a (Finset.mem_range.mp hj)])
 
-/-- **Curves, non-rational** (open or periodic basis).  `derivative(t, d, above)` is
-`Σ_j rowSpec_j · P_j`: the `d`-th one-sided derivative of the evaluated map.
-PARTIAL only in: tensor-grid form (for a curve `tensor=False` is the same computation), parameters
-satisfying `C03_GoodPoints` (snapped, in the domain). -/
-theorem C03_nonrational_curve_partial (o : Obj K) (b : Basis K) (hb : o.bases.toList = [b]) (n nc : ℕ)
-    (hs : o.cps.shape = [n, nc]) (hn : n = b.numFunctions) (hvb : b.Valid) (tol : K) (htol : 0 < tol)
-    (ts ts' : List K) (d : ℕ) (a : Bool) (r : Tensor K) (hr : o.rational = false)
-    (hv : o.validateDomain tol [ts] = .ok [ts'])
-    (h : o.derivativeGeneric tol [ts] [d] [a] true = .ok r)
-    (hpts : C03_GoodPoints b tol ts' a) :
-    ∀ k, k < ts'.length → ∀ c, c < nc →
-      r.get (k * nc + c) =
-        (Finset.range n).sum (fun j => b.rowSpec (ts'.getD k 0) a d j * o.cps.get (j * nc + c)) :=
-  Obj.derivative_nonrational_curve o b hb n nc hs hn tol ts ts' d a r hr hv h _
-    (C03_rows hvb htol ts' d a hpts)
+/-- **Surfaces, non-rational** (each direction open or periodic; per-direction derivative orders and sides):
+on the tensor grid entry `(i₁, i₂, c)` is the mixed partial
+`Σ_{j₁ j₂} rowSpec¹_{j₁}(u_{i₁}) · rowSpec²_{j₂}(v_{i₂}) · P_{j₁ j₂}[c]`; with `tensor=False` (equally many `u`
+and `v`) entry `(i, c)` is the same sum at the pair `(uᵢ, vᵢ)`. -/
+theorem C03_nonrational_surface {o : Obj K} {b1 b2 : Basis K} (hb : o.bases = #[b1, b2])
+    (hv1 : b1.Valid) (hv2 : b2.Valid) {nc : ℕ}
+    (hs : o.cps.shape = [b1.numFunctions, b2.numFunctions, nc]) (hr : o.rational = false) {tol : K}
+    (htol : 0 < tol) {us vs : List K} (hus : ∀ u ∈ us, b1.Admissible tol u)
+    (hvs : ∀ v ∈ vs, b2.Admissible tol v) (d1 d2 : ℕ) (a1 a2 : Bool) :
+    (∃ res, o.derivativeGeneric tol [us, vs] [d1, d2] [a1, a2] true = .ok res ∧
+      ∀ i1 i2 c, i1 < us.length → i2 < vs.length → c < nc →
+        res.get ((i1 * vs.length + i2) * nc + c) =
+          ∑ j1 ∈ Finset.range b1.numFunctions, ∑ j2 ∈ Finset.range b2.numFunctions,
+            b1.rowSpec (us.getD i1 0) a1 d1 j1 * b2.rowSpec (vs.getD i2 0) a2 d2 j2
+              * o.cps.get ((j1 * b2.numFunctions + j2) * nc + c)) ∧
+    (vs.length = us.length →
+      ∃ res, o.derivativeGeneric tol [us, vs] [d1, d2] [a1, a2] false = .ok res ∧
+        ∀ i c, i < us.length → c < nc →
+          res.get (i * nc + c) =
+            ∑ j1 ∈ Finset.range b1.numFunctions, ∑ j2 ∈ Finset.range b2.numFunctions,
+              b1.rowSpec (us.getD i 0) a1 d1 j1 * b2.rowSpec (vs.getD i 0) a2 d2 j2
+                * o.cps.get ((j1 * b2.numFunctions + j2) * nc + c)) := by
+  have hdom := Obj.not_outOfDomain2 hb hv1 hv2 htol hus hvs
+  constructor
+  · obtain ⟨res, hres, hget⟩ := Obj.derivative2_nonrational_grid hb hs hr tol us vs d1 d2 a1 a2 hdom
+    refine ⟨res, hres, fun i1 i2 c h1 h2 hc => ?_⟩
+    rw [hget i1 i2 c h1 h2 hc]
+    exact Finset.sum_congr rfl (fun j1 hj1 => Finset.sum_congr rfl (fun j2 hj2 => by
+      rw [C03_row_is_spec hv1 htol (hus _ (getD_mem_of_lt us h1 0)) d1 a1 (Finset.mem_range.mp hj1),
+        C03_row_is_spec hv2 htol (hvs _ (getD_mem_of_lt vs h2 0)) d2 a2 (Finset.mem_range.mp hj2)]))
+  · intro hlen
+    obtain ⟨res, hres, hget⟩ :=
+      Obj.derivative2_nonrational_pointwise hb hs hr tol us vs d1 d2 a1 a2 hlen hdom
+    refine ⟨res, hres, fun i c hi hc => ?_⟩
+    rw [hget i c hi hc]
+    exact Finset.sum_congr rfl (fun j1 hj1 => Finset.sum_congr rfl (fun j2 hj2 => by
+      rw [C03_row_is_spec hv1 htol (hus _ (getD_mem_of_lt us hi 0)) d1 a1 (Finset.mem_range.mp hj1),
+        C03_row_is_spec hv2 htol (hvs _ (getD_mem_of_lt vs (by omega) 0)) d2 a2
+          (Finset.mem_range.mp hj2)]))
 
-/-- Non-periodic curve: the sum of `C03_nonrational_curve_partial` is the specification's
-`splineDeriv` (side forced to `left` at the end of the domain). -/
+/-- **Volumes, non-rational** (same reading as for surfaces). -/
+theorem C03_nonrational_volume {o : Obj K} {b1 b2 b3 : Basis K} (hb : o.bases = #[b1, b2, b3])
+    (hv1 : b1.Valid) (hv2 : b2.Valid) (hv3 : b3.Valid) {nc : ℕ}
+    (hs : o.cps.shape = [b1.numFunctions, b2.numFunctions, b3.numFunctions, nc])
+    (hr : o.rational = false) {tol : K} (htol : 0 < tol) {us vs ws : List K}
+    (hus : ∀ u ∈ us, b1.Admissible tol u) (hvs : ∀ v ∈ vs, b2.Admissible tol v)
+    (hws : ∀ w ∈ ws, b3.Admissible tol w) (d1 d2 d3 : ℕ) (a1 a2 a3 : Bool) :
+    (∃ res, o.derivativeGeneric tol [us, vs, ws] [d1, d2, d3] [a1, a2, a3] true = .ok res ∧
+      ∀ i1 i2 i3 c, i1 < us.length → i2 < vs.length → i3 < ws.length → c < nc →
+        res.get (((i1 * vs.length + i2) * ws.length + i3) * nc + c) =
+          ∑ j1 ∈ Finset.range b1.numFunctions, ∑ j2 ∈ Finset.range b2.numFunctions,
+            ∑ j3 ∈ Finset.range b3.numFunctions,
+              b1.rowSpec (us.getD i1 0) a1 d1 j1 * b2.rowSpec (vs.getD i2 0) a2 d2 j2
+                * b3.rowSpec (ws.getD i3 0) a3 d3 j3
+                * o.cps.get (((j1 * b2.numFunctions + j2) * b3.numFunctions + j3) * nc + c)) ∧
+    (vs.length = us.length → ws.length = us.length →
+      ∃ res, o.derivativeGeneric tol [us, vs, ws] [d1, d2, d3] [a1, a2, a3] false = .ok res ∧
+        ∀ i c, i < us.length → c < nc →
+          res.get (i * nc + c) =
+            ∑ j1 ∈ Finset.range b1.numFunctions, ∑ j2 ∈ Finset.range b2.numFunctions,
+              ∑ j3 ∈ Finset.range b3.numFunctions,
+                b1.rowSpec (us.getD i 0) a1 d1 j1 * b2.rowSpec (vs.getD i 0) a2 d2 j2
+                  * b3.rowSpec (ws.getD i 0) a3 d3 j3
+                  * o.cps.get (((j1 * b2.numFunctions + j2) * b3.numFunctions + j3) * nc + c)) := by
+  have hdom := Obj.not_outOfDomain3 hb hv1 hv2 hv3 htol hus hvs hws
+  constructor
+  · obtain ⟨res, hres, hget⟩ :=
+      Obj.derivative3_nonrational_grid hb hs hr tol us vs ws d1 d2 d3 a1 a2 a3 hdom
+    refine ⟨res, hres, fun i1 i2 i3 c h1 h2 h3 hc => ?_⟩
+    rw [hget i1 i2 i3 c h1 h2 h3 hc]
+    exact Finset.sum_congr rfl (fun j1 hj1 => Finset.sum_congr rfl (fun j2 hj2 =>
+      Finset.sum_congr rfl (fun j3 hj3 => by
+        rw [C03_row_is_spec hv1 htol (hus _ (getD_mem_of_lt us h1 0)) d1 a1 (Finset.mem_range.mp hj1),
+          C03_row_is_spec hv2 htol (hvs _ (getD_mem_of_lt vs h2 0)) d2 a2 (Finset.mem_range.mp hj2),
+          C03_row_is_spec hv3 htol (hws _ (getD_mem_of_lt ws h3 0)) d3 a3 (Finset.mem_range.mp hj3)])))
+  · intro hlen2 hlen3
+    obtain ⟨res, hres, hget⟩ :=
+      Obj.derivative3_nonrational_pointwise hb hs hr tol us vs ws d1 d2 d3 a1 a2 a3 hlen2 hlen3 hdom
+    refine ⟨res, hres, fun i c hi hc => ?_⟩
+    rw [hget i c hi hc]
+    exact Finset.sum_congr rfl (fun j1 hj1 => Finset.sum_congr rfl (fun j2 hj2 =>
+      Finset.sum_congr rfl (fun j3 hj3 => by
+        rw [C03_row_is_spec hv1 htol (hus _ (getD_mem_of_lt us hi 0)) d1 a1 (Finset.mem_range.mp hj1),
+          C03_row_is_spec hv2 htol (hvs _ (getD_mem_of_lt vs (by omega) 0)) d2 a2
+            (Finset.mem_range.mp hj2),
+          C03_row_is_spec hv3 htol (hws _ (getD_mem_of_lt ws (by omega) 0)) d3 a3
+            (Finset.mem_range.mp hj3)])))
+
+/-- Non-periodic curve: the sum of `C03_nonrational_curve` is the specification's `splineDeriv` (side forced
+to `left` at the end of the domain); at the start approached from the left it is `0`. -/
 theorem C03_nonrational_curve_open (b : Basis K) (hper : b.periodic = -1) (n : ℕ) (P : ℕ → K)
     (t : K) (a : Bool) (d : ℕ) :
     (Finset.range n).sum (fun j => b.rowSpec t a d j * P j) =
-      splineDeriv (effSide b t a) b.kn (b.order - 1) n P d t := by
+      if t = b.start ∧ a = false then 0
+      else splineDeriv (effSide b t a) b.kn (b.order - 1) n P d t := by
   unfold splineDeriv Basis.rowSpec
   have hlt : b.periodic < 0 := by rw [hper]; decide
   simp only [if_pos hlt]
-  apply Finset.sum_congr rfl
-  intro j _
-  ring
+  by_cases hsl : t = b.start ∧ a = false
+  · simp only [if_pos hsl, zero_mul, Finset.sum_const_zero]
+  · simp only [if_neg hsl]
+    apply Finset.sum_congr rfl
+    intro j _
+    ring
 
 omit [FloorRing K] in
 /-- Regrouping wrapped images: `Σ_{j<n} (Σ_{i<N, i ≡ j} f i) P_j = Σ_{i<N} f i · P_{i mod n}`. -/
@@ -109,14 +182,14 @@ theorem C03_sum_wrapped (f : ℕ → K) (P : ℕ → K) (n N : ℕ) (hn : 0 < n)
   intro i _
   rw [Finset.sum_ite_eq, if_pos (Finset.mem_range.mpr (Nat.mod_lt _ hn))]
 
-/-- Periodic curve: the sum of `C03_nonrational_curve_partial` is the derivative of the UNWRAPPED spline
-over all `nAll` functions with the wrapped control points `P (i % n)`, at the effective point/side
-(the left limit at the seam `start` is the left limit at `stop`). -/
+/-- Periodic curve, ANY real parameter: the sum of `C03_nonrational_curve` is the derivative of the UNWRAPPED
+spline over all `nAll` functions with the wrapped control points `P (i % n)`, at the wrapped parameter with the
+effective point/side of the seam (the left limit at `start` is the left limit at `stop`). -/
 theorem C03_nonrational_curve_periodic (b : Basis K) (hper : 0 ≤ b.periodic) (hn : 0 < b.numFunctions)
     (P : ℕ → K) (t : K) (a : Bool) (d : ℕ) :
     (Finset.range b.numFunctions).sum (fun j => b.rowSpec t a d j * P j) =
-      splineDeriv (periodicEff b t a).2 b.kn (b.order - 1) b.nAll (fun i => P (i % b.numFunctions)) d
-        (periodicEff b t a).1 := by
+      splineDeriv (periodicEff b (b.wrap t) a).2 b.kn (b.order - 1) b.nAll (fun i => P (i % b.numFunctions)) d
+        (periodicEff b (b.wrap t) a).1 := by
   unfold splineDeriv Basis.rowSpec
   have hlt : ¬ b.periodic < 0 := by omega
   simp only [if_neg hlt]
@@ -125,45 +198,204 @@ theorem C03_nonrational_curve_periodic (b : Basis K) (hper : 0 ≤ b.periodic) (
   intro i _
   ring
 
-/-- **Surfaces, non-rational** (each direction open or periodic), tensor grid: the mixed partial
-`Σ_{ij} rowSpec¹_i(u) rowSpec²_j(v) P_{ij}` with per-direction derivative orders and sides.
-PARTIAL only in: tensor-grid form, `C03_GoodPoints` parameters. -/
-theorem C03_nonrational_surface_partial (o : Obj K) (b1 b2 : Basis K) (hb : o.bases.toList = [b1, b2])
-    (n1 n2 nc : ℕ) (hs : o.cps.shape = [n1, n2, nc]) (hn1 : n1 = b1.numFunctions) (hn2 : n2 = b2.numFunctions)
-    (hv1 : b1.Valid) (hv2 : b2.Valid) (tol : K) (htol : 0 < tol)
-    (us vs us' vs' : List K) (d1 d2 : ℕ) (a1 a2 : Bool) (r : Tensor K) (hr : o.rational = false)
-    (hv : o.validateDomain tol [us, vs] = .ok [us', vs'])
-    (h : o.derivativeGeneric tol [us, vs] [d1, d2] [a1, a2] true = .ok r)
-    (hpu : C03_GoodPoints b1 tol us' a1) (hpv : C03_GoodPoints b2 tol vs' a2) :
-    ∀ k1, k1 < us'.length → ∀ k2, k2 < vs'.length → ∀ c, c < nc →
-      r.get ((k1 * vs'.length + k2) * nc + c) =
-        (Finset.range n1).sum (fun i => b1.rowSpec (us'.getD k1 0) a1 d1 i *
-          (Finset.range n2).sum (fun j => b2.rowSpec (vs'.getD k2 0) a2 d2 j *
-            o.cps.get ((i * n2 + j) * nc + c))) :=
-  Obj.derivative_nonrational_surface o b1 b2 hb n1 n2 nc hs hn1 hn2 tol us vs us' vs' d1 d2 a1 a2 r hr hv h
-    _ _ (C03_rows hv1 htol us' d1 a1 hpu) (C03_rows hv2 htol vs' d2 a2 hpv)
+/-! ### Arbitrary (non-exact) parameters: snapping -/
 
-/-- **Volumes, non-rational**, tensor grid (same reading). -/
-theorem C03_nonrational_volume_partial (o : Obj K) (b1 b2 b3 : Basis K)
-    (hb : o.bases.toList = [b1, b2, b3])
-    (n1 n2 n3 nc : ℕ) (hs : o.cps.shape = [n1, n2, n3, nc]) (hn1 : n1 = b1.numFunctions)
-    (hn2 : n2 = b2.numFunctions) (hn3 : n3 = b3.numFunctions)
-    (hv1 : b1.Valid) (hv2 : b2.Valid) (hv3 : b3.Valid) (tol : K) (htol : 0 < tol)
-    (us vs ws us' vs' ws' : List K) (d1 d2 d3 : ℕ) (a1 a2 a3 : Bool) (r : Tensor K)
-    (hr : o.rational = false)
-    (hv : o.validateDomain tol [us, vs, ws] = .ok [us', vs', ws'])
-    (h : o.derivativeGeneric tol [us, vs, ws] [d1, d2, d3] [a1, a2, a3] true = .ok r)
-    (hpu : C03_GoodPoints b1 tol us' a1) (hpv : C03_GoodPoints b2 tol vs' a2)
-    (hpw : C03_GoodPoints b3 tol ws' a3) :
-    ∀ k1, k1 < us'.length → ∀ k2, k2 < vs'.length → ∀ k3, k3 < ws'.length → ∀ c, c < nc →
-      r.get (((k1 * vs'.length + k2) * ws'.length + k3) * nc + c) =
-        (Finset.range n1).sum (fun i => b1.rowSpec (us'.getD k1 0) a1 d1 i *
-          (Finset.range n2).sum (fun j => b2.rowSpec (vs'.getD k2 0) a2 d2 j *
-            (Finset.range n3).sum (fun k => b3.rowSpec (ws'.getD k3 0) a3 d3 k *
-              o.cps.get (((i * n2 + j) * n3 + k) * nc + c)))) :=
-  Obj.derivative_nonrational_volume o b1 b2 b3 hb n1 n2 n3 nc hs hn1 hn2 hn3 tol us vs ws us' vs' ws'
-    d1 d2 d3 a1 a2 a3 r hr hv h _ _ _ (C03_rows hv1 htol us' d1 a1 hpu) (C03_rows hv2 htol vs' d2 a2 hpv)
-    (C03_rows hv3 htol ws' d3 a3 hpw)
+/-- `derivative` sees its parameters only through their lengths and `_validate_domain`. -/
+theorem C03_derivative_congr (o : Obj K) (tol : K) (p p' : List (List K)) (derivs : List ℕ)
+    (above : List Bool) (tensor : Bool) (hlen : p'.map List.length = p.map List.length)
+    (hval : o.validateDomain tol p' = o.validateDomain tol p) :
+    o.derivativeGeneric tol p' derivs above tensor = o.derivativeGeneric tol p derivs above tensor := by
+  unfold Obj.derivativeGeneric
+  rw [hlen, hval]
+
+/-- Curves, separated knots (distinct knot values at least `tol` apart — every sensible knot vector with the
+default `1e-10`): `derivative` at ANY parameters is `derivative` at the snapped parameters (rational or not,
+every `d`, `above`, `tensor`; errors included). -/
+theorem C03_derivative_snap_curve {o : Obj K} {b1 : Basis K} (hb : o.bases = #[b1]) (hv1 : b1.Valid)
+    {tol : K} (htol : 0 < tol) (hs1 : b1.Separated tol) (us : List K) (derivs : List ℕ)
+    (above : List Bool) (tensor : Bool) :
+    o.derivativeGeneric tol [us] derivs above tensor =
+      o.derivativeGeneric tol [us.map (snap b1 tol)] derivs above tensor := by
+  symm
+  apply C03_derivative_congr _ _ _ _ _ _ _ (by simp)
+  have hdomiff : o.OutOfDomain tol [us.map (snap b1 tol)] ↔ o.OutOfDomain tol [us] := by
+    rw [Obj.outOfDomain1_iff hb, Obj.outOfDomain1_iff hb, exists_mem_map_snap hv1 htol hs1]
+  by_cases h2 : o.OutOfDomain tol [us]
+  · rw [o.validateDomain_error tol _ h2, o.validateDomain_error tol _ (hdomiff.mpr h2)]
+  · rw [o.validateDomain_ok tol _ h2, o.validateDomain_ok tol _ (fun h => h2 (hdomiff.mp h))]
+    simp [Obj.snapParams, hb, map_snap_snap hv1 htol hs1]
+
+/-- … surfaces … -/
+theorem C03_derivative_snap_surface {o : Obj K} {b1 b2 : Basis K} (hb : o.bases = #[b1, b2])
+    (hv1 : b1.Valid) (hv2 : b2.Valid) {tol : K} (htol : 0 < tol) (hs1 : b1.Separated tol)
+    (hs2 : b2.Separated tol) (us vs : List K) (derivs : List ℕ) (above : List Bool) (tensor : Bool) :
+    o.derivativeGeneric tol [us, vs] derivs above tensor =
+      o.derivativeGeneric tol [us.map (snap b1 tol), vs.map (snap b2 tol)] derivs above tensor := by
+  symm
+  apply C03_derivative_congr _ _ _ _ _ _ _ (by simp)
+  have hdomiff : o.OutOfDomain tol [us.map (snap b1 tol), vs.map (snap b2 tol)]
+      ↔ o.OutOfDomain tol [us, vs] := by
+    rw [Obj.outOfDomain2_iff hb, Obj.outOfDomain2_iff hb, exists_mem_map_snap hv1 htol hs1,
+      exists_mem_map_snap hv2 htol hs2]
+  by_cases h2 : o.OutOfDomain tol [us, vs]
+  · rw [o.validateDomain_error tol _ h2, o.validateDomain_error tol _ (hdomiff.mpr h2)]
+  · rw [o.validateDomain_ok tol _ h2, o.validateDomain_ok tol _ (fun h => h2 (hdomiff.mp h))]
+    simp [Obj.snapParams, hb, map_snap_snap hv1 htol hs1, map_snap_snap hv2 htol hs2]
+
+/-- … volumes. -/
+theorem C03_derivative_snap_volume {o : Obj K} {b1 b2 b3 : Basis K} (hb : o.bases = #[b1, b2, b3])
+    (hv1 : b1.Valid) (hv2 : b2.Valid) (hv3 : b3.Valid) {tol : K} (htol : 0 < tol)
+    (hs1 : b1.Separated tol) (hs2 : b2.Separated tol) (hs3 : b3.Separated tol)
+    (us vs ws : List K) (derivs : List ℕ) (above : List Bool) (tensor : Bool) :
+    o.derivativeGeneric tol [us, vs, ws] derivs above tensor =
+      o.derivativeGeneric tol [us.map (snap b1 tol), vs.map (snap b2 tol), ws.map (snap b3 tol)]
+        derivs above tensor := by
+  symm
+  apply C03_derivative_congr _ _ _ _ _ _ _ (by simp)
+  have hdomiff : o.OutOfDomain tol [us.map (snap b1 tol), vs.map (snap b2 tol), ws.map (snap b3 tol)]
+      ↔ o.OutOfDomain tol [us, vs, ws] := by
+    rw [Obj.outOfDomain3_iff hb, Obj.outOfDomain3_iff hb, exists_mem_map_snap hv1 htol hs1,
+      exists_mem_map_snap hv2 htol hs2, exists_mem_map_snap hv3 htol hs3]
+  by_cases h2 : o.OutOfDomain tol [us, vs, ws]
+  · rw [o.validateDomain_error tol _ h2, o.validateDomain_error tol _ (hdomiff.mpr h2)]
+  · rw [o.validateDomain_ok tol _ h2, o.validateDomain_ok tol _ (fun h => h2 (hdomiff.mp h))]
+    simp [Obj.snapParams, hb, map_snap_snap hv1 htol hs1, map_snap_snap hv2 htol hs2,
+      map_snap_snap hv3 htol hs3]
+
+/-- Non-periodic direction, separated knots: if no snapped parameter leaves the domain, every snapped
+parameter is admissible (so the theorems above apply to `us.map (snap b tol)`; `C02_snapped_admissible`). -/
+theorem C03_snapped_admissible {b : Basis K} (hv : b.Valid) (hper : b.periodic = -1) {tol : K}
+    (hsep : b.Separated tol) {us : List K}
+    (hin : ¬ ∃ t ∈ us, snap b tol t < b.start ∨ b.stop < snap b tol t) :
+    ∀ u ∈ us.map (snap b tol), b.Admissible tol u := by
+  intro u hu
+  obtain ⟨t, ht, rfl⟩ := List.mem_map.mp hu
+  have h : ¬ (snap b tol t < b.start ∨ b.stop < snap b tol t) := fun hh => hin ⟨t, ht, hh⟩
+  rw [not_or, not_lt, not_lt] at h
+  exact C02_snapped_admissible hv hper hsep h.1 h.2
+
+/-- **Curves, non-rational, arbitrary parameters** (non-periodic basis with separated knots; the ONLY
+hypothesis on the parameters is the property's own: inside the domain after snapping).  Entry `(i, c)` is the
+`d`-th one-sided derivative sum at the snapped parameter. -/
+theorem C03_nonrational_curve_any {o : Obj K} {b1 : Basis K} (hb : o.bases = #[b1]) (hv1 : b1.Valid)
+    (hp1 : b1.periodic = -1) {nc : ℕ} (hs : o.cps.shape = [b1.numFunctions, nc])
+    (hr : o.rational = false) {tol : K} (htol : 0 < tol) (hs1 : b1.Separated tol) (us : List K)
+    (hdom : ¬ o.OutOfDomain tol [us]) (d : ℕ) (a : Bool) (tensor : Bool) :
+    ∃ res, o.derivativeGeneric tol [us] [d] [a] tensor = .ok res ∧
+      ∀ i c, i < us.length → c < nc →
+        res.get (i * nc + c) =
+          ∑ j ∈ Finset.range b1.numFunctions,
+            b1.rowSpec (snap b1 tol (us.getD i 0)) a d j * o.cps.get (j * nc + c) := by
+  rw [Obj.outOfDomain1_iff hb] at hdom
+  have hadm := C03_snapped_admissible hv1 hp1 hs1 (fun h => hdom ⟨by rw [hp1]; decide, h⟩)
+  obtain ⟨res, hres, hget⟩ := C03_nonrational_curve hb hv1 hs hr htol hadm d a tensor
+  rw [← C03_derivative_snap_curve hb hv1 htol hs1] at hres
+  refine ⟨res, hres, fun i c hi hc => ?_⟩
+  have := hget i c (by rw [List.length_map]; exact hi) hc
+  rw [this]
+  have e : (us.map (snap b1 tol)).getD i 0 = snap b1 tol (us.getD i 0) := by
+    simp [List.getD_eq_getElem?_getD, hi]
+  rw [e]
+
+/-- **Surfaces, non-rational, arbitrary parameters** (non-periodic bases with separated knots; parameters
+inside the domain after snapping), grid and pointwise form. -/
+theorem C03_nonrational_surface_any {o : Obj K} {b1 b2 : Basis K} (hb : o.bases = #[b1, b2])
+    (hv1 : b1.Valid) (hv2 : b2.Valid) (hp1 : b1.periodic = -1) (hp2 : b2.periodic = -1) {nc : ℕ}
+    (hs : o.cps.shape = [b1.numFunctions, b2.numFunctions, nc]) (hr : o.rational = false) {tol : K}
+    (htol : 0 < tol) (hs1 : b1.Separated tol) (hs2 : b2.Separated tol) (us vs : List K)
+    (hdom : ¬ o.OutOfDomain tol [us, vs]) (d1 d2 : ℕ) (a1 a2 : Bool) :
+    (∃ res, o.derivativeGeneric tol [us, vs] [d1, d2] [a1, a2] true = .ok res ∧
+      ∀ i1 i2 c, i1 < us.length → i2 < vs.length → c < nc →
+        res.get ((i1 * vs.length + i2) * nc + c) =
+          ∑ j1 ∈ Finset.range b1.numFunctions, ∑ j2 ∈ Finset.range b2.numFunctions,
+            b1.rowSpec (snap b1 tol (us.getD i1 0)) a1 d1 j1
+              * b2.rowSpec (snap b2 tol (vs.getD i2 0)) a2 d2 j2
+              * o.cps.get ((j1 * b2.numFunctions + j2) * nc + c)) ∧
+    (vs.length = us.length →
+      ∃ res, o.derivativeGeneric tol [us, vs] [d1, d2] [a1, a2] false = .ok res ∧
+        ∀ i c, i < us.length → c < nc →
+          res.get (i * nc + c) =
+            ∑ j1 ∈ Finset.range b1.numFunctions, ∑ j2 ∈ Finset.range b2.numFunctions,
+              b1.rowSpec (snap b1 tol (us.getD i 0)) a1 d1 j1
+                * b2.rowSpec (snap b2 tol (vs.getD i 0)) a2 d2 j2
+                * o.cps.get ((j1 * b2.numFunctions + j2) * nc + c)) := by
+  rw [Obj.outOfDomain2_iff hb, not_or] at hdom
+  have hadm1 := C03_snapped_admissible hv1 hp1 hs1 (fun h => hdom.1 ⟨by rw [hp1]; decide, h⟩)
+  have hadm2 := C03_snapped_admissible hv2 hp2 hs2 (fun h => hdom.2 ⟨by rw [hp2]; decide, h⟩)
+  obtain ⟨hg, hpw⟩ := C03_nonrational_surface hb hv1 hv2 hs hr htol hadm1 hadm2 d1 d2 a1 a2
+  have e1 : ∀ i, i < us.length → (us.map (snap b1 tol)).getD i 0 = snap b1 tol (us.getD i 0) := by
+    intro i hi; simp [List.getD_eq_getElem?_getD, hi]
+  have e2 : ∀ i, i < vs.length → (vs.map (snap b2 tol)).getD i 0 = snap b2 tol (vs.getD i 0) := by
+    intro i hi; simp [List.getD_eq_getElem?_getD, hi]
+  constructor
+  · obtain ⟨res, hres, hget⟩ := hg
+    rw [← C03_derivative_snap_surface hb hv1 hv2 htol hs1 hs2] at hres
+    refine ⟨res, hres, fun i1 i2 c h1 h2 hc => ?_⟩
+    have := hget i1 i2 c (by rw [List.length_map]; exact h1) (by rw [List.length_map]; exact h2) hc
+    rw [List.length_map] at this
+    rw [this, e1 i1 h1, e2 i2 h2]
+  · intro hlen
+    obtain ⟨res, hres, hget⟩ := hpw (by rw [List.length_map, List.length_map]; exact hlen)
+    rw [← C03_derivative_snap_surface hb hv1 hv2 htol hs1 hs2] at hres
+    refine ⟨res, hres, fun i c hi hc => ?_⟩
+    have := hget i c (by rw [List.length_map]; exact hi) hc
+    rw [this, e1 i hi, e2 i (by omega)]
+
+/-- **Volumes, non-rational, arbitrary parameters** (non-periodic bases with separated knots), grid form and
+pointwise form. -/
+theorem C03_nonrational_volume_any {o : Obj K} {b1 b2 b3 : Basis K} (hb : o.bases = #[b1, b2, b3])
+    (hv1 : b1.Valid) (hv2 : b2.Valid) (hv3 : b3.Valid) (hp1 : b1.periodic = -1)
+    (hp2 : b2.periodic = -1) (hp3 : b3.periodic = -1) {nc : ℕ}
+    (hs : o.cps.shape = [b1.numFunctions, b2.numFunctions, b3.numFunctions, nc])
+    (hr : o.rational = false) {tol : K} (htol : 0 < tol) (hs1 : b1.Separated tol)
+    (hs2 : b2.Separated tol) (hs3 : b3.Separated tol) (us vs ws : List K)
+    (hdom : ¬ o.OutOfDomain tol [us, vs, ws]) (d1 d2 d3 : ℕ) (a1 a2 a3 : Bool) :
+    (∃ res, o.derivativeGeneric tol [us, vs, ws] [d1, d2, d3] [a1, a2, a3] true = .ok res ∧
+      ∀ i1 i2 i3 c, i1 < us.length → i2 < vs.length → i3 < ws.length → c < nc →
+        res.get (((i1 * vs.length + i2) * ws.length + i3) * nc + c) =
+          ∑ j1 ∈ Finset.range b1.numFunctions, ∑ j2 ∈ Finset.range b2.numFunctions,
+            ∑ j3 ∈ Finset.range b3.numFunctions,
+              b1.rowSpec (snap b1 tol (us.getD i1 0)) a1 d1 j1
+                * b2.rowSpec (snap b2 tol (vs.getD i2 0)) a2 d2 j2
+                * b3.rowSpec (snap b3 tol (ws.getD i3 0)) a3 d3 j3
+                * o.cps.get (((j1 * b2.numFunctions + j2) * b3.numFunctions + j3) * nc + c)) ∧
+    (vs.length = us.length → ws.length = us.length →
+      ∃ res, o.derivativeGeneric tol [us, vs, ws] [d1, d2, d3] [a1, a2, a3] false = .ok res ∧
+        ∀ i c, i < us.length → c < nc →
+          res.get (i * nc + c) =
+            ∑ j1 ∈ Finset.range b1.numFunctions, ∑ j2 ∈ Finset.range b2.numFunctions,
+              ∑ j3 ∈ Finset.range b3.numFunctions,
+                b1.rowSpec (snap b1 tol (us.getD i 0)) a1 d1 j1
+                  * b2.rowSpec (snap b2 tol (vs.getD i 0)) a2 d2 j2
+                  * b3.rowSpec (snap b3 tol (ws.getD i 0)) a3 d3 j3
+                  * o.cps.get (((j1 * b2.numFunctions + j2) * b3.numFunctions + j3) * nc + c)) := by
+  rw [Obj.outOfDomain3_iff hb, not_or, not_or] at hdom
+  have hadm1 := C03_snapped_admissible hv1 hp1 hs1 (fun h => hdom.1 ⟨by rw [hp1]; decide, h⟩)
+  have hadm2 := C03_snapped_admissible hv2 hp2 hs2 (fun h => hdom.2.1 ⟨by rw [hp2]; decide, h⟩)
+  have hadm3 := C03_snapped_admissible hv3 hp3 hs3 (fun h => hdom.2.2 ⟨by rw [hp3]; decide, h⟩)
+  obtain ⟨hg, hpw⟩ :=
+    C03_nonrational_volume hb hv1 hv2 hv3 hs hr htol hadm1 hadm2 hadm3 d1 d2 d3 a1 a2 a3
+  have e1 : ∀ i, i < us.length → (us.map (snap b1 tol)).getD i 0 = snap b1 tol (us.getD i 0) := by
+    intro i hi; simp [List.getD_eq_getElem?_getD, hi]
+  have e2 : ∀ i, i < vs.length → (vs.map (snap b2 tol)).getD i 0 = snap b2 tol (vs.getD i 0) := by
+    intro i hi; simp [List.getD_eq_getElem?_getD, hi]
+  have e3 : ∀ i, i < ws.length → (ws.map (snap b3 tol)).getD i 0 = snap b3 tol (ws.getD i 0) := by
+    intro i hi; simp [List.getD_eq_getElem?_getD, hi]
+  constructor
+  · obtain ⟨res, hres, hget⟩ := hg
+    rw [← C03_derivative_snap_volume hb hv1 hv2 hv3 htol hs1 hs2 hs3] at hres
+    refine ⟨res, hres, fun i1 i2 i3 c h1 h2 h3 hc => ?_⟩
+    have := hget i1 i2 i3 c (by rw [List.length_map]; exact h1) (by rw [List.length_map]; exact h2)
+      (by rw [List.length_map]; exact h3) hc
+    rw [List.length_map, List.length_map] at this
+    rw [this, e1 i1 h1, e2 i2 h2, e3 i3 h3]
+  · intro hlen2 hlen3
+    obtain ⟨res, hres, hget⟩ := hpw (by rw [List.length_map, List.length_map]; exact hlen2)
+      (by rw [List.length_map, List.length_map]; exact hlen3)
+    rw [← C03_derivative_snap_volume hb hv1 hv2 hv3 htol hs1 hs2 hs3] at hres
+    refine ⟨res, hres, fun i c hi hc => ?_⟩
+    have := hget i c (by rw [List.length_map]; exact hi) hc
+    rw [this, e1 i hi, e2 i (by omega), e3 i (by omega)]
 
 end nonrational
 
@@ -273,6 +505,324 @@ theorem C03_rational_surface_2_3 (o : Obj K) (tol : K) (us vs : List K) (du dv :
   refine ⟨r, hr, ?_⟩
   intro pI c hc hpI x hW hL
   exact RatDeriv.surfD_correct hW hL du dv _ (hget pI c hc hpI)
+
+/-! ## Rational curves over ℝ: `derivative(d)` IS the d-th one-sided derivative of the evaluated map -/
+
+section real
+
+/-- Every admissible parameter of a valid non-periodic basis (except the start approached from the left)
+lies in a non-empty knot span on the side `effSide` selects. -/
+theorem C03_exists_span {b : Basis ℝ} (hv : b.Valid) {t : ℝ} (h1 : b.start ≤ t) (h2 : t ≤ b.stop)
+    (a : Bool) (hnot : ¬ (t = b.start ∧ a = false)) :
+    ∃ μ, (effSide b t a).mem (b.kn μ) (b.kn (μ+1)) t := by
+  have hlt := hv.start_lt_stop
+  have hm : (effSide b t a).mem (b.kn (b.order - 1)) (b.kn b.nAll) t := by
+    rw [← b.start_eq, ← b.stop_eq]
+    unfold effSide
+    by_cases hs : t = b.stop
+    · rw [if_pos hs]; exact ⟨by rw [hs]; exact hlt, h2⟩
+    · rw [if_neg hs]
+      cases a
+      · have hne : t ≠ b.start := fun h => hnot ⟨h, rfl⟩
+        exact ⟨lt_of_le_of_ne h1 (Ne.symm hne), h2⟩
+      · exact ⟨h1, lt_of_le_of_ne h2 hs⟩
+  obtain ⟨μ, -, -, h⟩ := exists_span _ b.kn hv.kn_mono _ _ t hm
+  exact ⟨μ, h⟩
+
+/-- **The evaluated map is the quotient of the specification sums** (any ordered field): for a rational curve
+on a valid non-periodic basis and an admissible `t`, `evaluate(t)[c] = n₀(t)/W₀(t)` with the sums taken from the
+side `effSide b t true` (right-continuous, the limit from inside at the domain end) — the function whose
+one-sided derivatives `C03_rational_curve_real` computes (for `above=True` and `t₀ ≠ end` the sides agree on
+`[t₀, end)`). -/
+theorem C03_evaluated_map_curve [IsStrictOrderedRing K] {o : Obj K} {b : Basis K} (hb : o.bases = #[b])
+    (hv : b.Valid) (hper : b.periodic = -1) {dim : ℕ} (hs : o.cps.shape = [b.numFunctions, dim + 1])
+    (hr : o.rational = true) {tol : K} (htol : 0 < tol) (t : K) (hadm : b.Admissible tol t) {c : ℕ}
+    (hc : c < dim) :
+    ∃ r, o.evaluate tol [[t]] true = .ok r ∧
+      r.get c =
+        splineDeriv (effSide b t true) b.kn (b.order - 1) b.numFunctions
+            (fun j => o.cps.get (j * (dim + 1) + c)) 0 t /
+          splineDeriv (effSide b t true) b.kn (b.order - 1) b.numFunctions
+            (fun j => o.cps.get (j * (dim + 1) + dim)) 0 t := by
+  have hus : ∀ u ∈ [t], b.Admissible tol u := by intro u h; simp at h; rw [h]; exact hadm
+  obtain ⟨r, hr1, -, -, hget⟩ := Obj.evaluate1_grid_rational hb hs hr tol [t]
+    (Obj.not_outOfDomain1 hb hv htol hus)
+  refine ⟨r, hr1, ?_⟩
+  have h := hget 0 c (by simp) hc
+  simp only [Nat.zero_mul, Nat.zero_add, List.getD_cons_zero] at h
+  rw [h]
+  unfold splineDeriv
+  congr 1 <;>
+  · apply Finset.sum_congr rfl
+    intro j hj
+    rw [Basis.rowVal_eq_specRow hv htol hadm (Finset.mem_range.mp hj),
+      Basis.specRow_nonperiodic hper, dB_zero]
+    ring
+
+/-- **Rational curve over ℝ, end to end.**  `o` a rational curve on a valid non-periodic basis, `t₀` an
+admissible parameter (not the domain start approached from the left), `s = effSide b t₀ a` the side selected by
+`above`, and for component `c`
+`n_k(t) = Σ_j P_j[c]·dB(j,k)(t)`, `W_k(t) = Σ_j w_j·dB(j,k)(t)` the specification's derivative sums of numerator
+and weight (so `x(t) = n₀(t)/W₀(t)` is the evaluated map of `C02_rational_curve`, taken from the side `s`).
+If `W₀(t₀) ≠ 0` (true for positive weights) then, with `HasDerivWithinAt` on `[t₀,∞)` resp. `(-∞,t₀]`:
+1. `derivative(t₀, d=1, above)` (generic quotient rule) is the one-sided derivative of `x` at `t₀`;
+2. `derivative(t₀, d=2, above)` (closed form) is the one-sided derivative at `t₀` of `x' = first(n₀,n₁,W₀,W₁)`;
+3. `derivative(t₀, d=3, above)` is the one-sided derivative at `t₀` of `x'' = curveD2(n₀,n₁,n₂,W₀,W₁,W₂)`;
+and (`C03_quotient_chain`) `x'`, `x''` are the one-sided derivatives of `x`, `x'` at EVERY point of a knot span
+where `W₀ ≠ 0` — so the three values are the first, second and third one-sided derivatives of the evaluated map.
+No Leibniz hypothesis is left: the jets are derivatives by `hasDerivWithinAt_splineDeriv` (L3 over ℝ). -/
+theorem C03_rational_curve_real {o : Obj ℝ} {b : Basis ℝ} (hb : o.bases = #[b]) (hv : b.Valid)
+    (hper : b.periodic = -1) {dim : ℕ} (hs : o.cps.shape = [b.numFunctions, dim + 1])
+    (hr : o.rational = true) {tol : ℝ} (htol : 0 < tol) (t0 : ℝ) (hadm : b.Admissible tol t0)
+    (a : Bool) (hnot : ¬ (t0 = b.start ∧ a = false)) {c : ℕ} (hc : c < dim) :
+    let s := effSide b t0 a
+    let nJ : ℕ → ℝ → ℝ := fun k t =>
+      splineDeriv s b.kn (b.order - 1) b.numFunctions (fun j => o.cps.get (j * (dim + 1) + c)) k t
+    let WJ : ℕ → ℝ → ℝ := fun k t =>
+      splineDeriv s b.kn (b.order - 1) b.numFunctions (fun j => o.cps.get (j * (dim + 1) + dim)) k t
+    WJ 0 t0 ≠ 0 →
+    (∃ r, o.derivativeGeneric tol [[t0]] [1] [a] true = .ok r ∧
+      HasDerivWithinAt (fun t => nJ 0 t / WJ 0 t) (r.get c) (sideSet s t0) t0) ∧
+    HasDerivWithinAt (fun t => RatDeriv.first (nJ 0 t) (nJ 1 t) (WJ 0 t) (WJ 1 t))
+      ((o.curveDerivativeRational tol [t0] 2 a).get c) (sideSet s t0) t0 ∧
+    HasDerivWithinAt (fun t => RatDeriv.curveD2 (nJ 0 t) (nJ 1 t) (nJ 2 t) (WJ 0 t) (WJ 1 t) (WJ 2 t))
+      ((o.curveDerivativeRational tol [t0] 3 a).get c) (sideSet s t0) t0 := by
+  intro s nJ WJ hW
+  obtain ⟨hnc, hdim⟩ := Obj.dimension_of_shape (o := o) (pre := [b.numFunctions]) (nc := dim + 1) hs
+  have hdim' : o.dimension = dim := by rw [hdim, hr]; simp
+  have hin := hadm.2.1 hper
+  obtain ⟨μ, hμ⟩ := C03_exists_span hv hin.1 hin.2 a hnot
+  have hdn : ∀ k, HasDerivWithinAt (nJ k) (nJ (k+1) t0) (sideSet s t0) t0 := fun k =>
+    hasDerivWithinAt_splineDeriv s b.kn hv.kn_mono μ _ _ _ k t0 hμ
+  have hdW : ∀ k, HasDerivWithinAt (WJ k) (WJ (k+1) t0) (sideSet s t0) t0 := fun k =>
+    hasDerivWithinAt_splineDeriv s b.kn hv.kn_mono μ _ _ _ k t0 hμ
+  have hadm' : b.Admissible tol ([t0].getD 0 0) := by simpa using hadm
+  have hnot' : ¬ (([t0] : List ℝ).getD 0 0 = b.start ∧ a = false) := by simpa using hnot
+  -- the jets of the closed forms
+  have jn : ∀ k, (o.curveJet tol [t0] k a).get (0 * o.ncomp + c) = nJ k t0 := by
+    intro k
+    rw [hnc]
+    have := Obj.curveJet_spec hb hv hper hs htol [t0] k a (i := 0) (c := c) (by simp) (by omega) hadm' hnot'
+    simpa using this
+  have jW : ∀ k, (o.curveJet tol [t0] k a).get (0 * o.ncomp + o.dimension) = WJ k t0 := by
+    intro k
+    rw [hnc, hdim']
+    have := Obj.curveJet_spec hb hv hper hs htol [t0] k a (i := 0) (c := dim) (by simp) (by omega) hadm' hnot'
+    simpa using this
+  refine ⟨?_, ?_, ?_⟩
+  · -- generic first-order quotient rule
+    have hus : ∀ u ∈ [t0], b.Admissible tol u := by intro u hu; simp at hu; rw [hu]; exact hadm
+    have hdom := Obj.not_outOfDomain1 hb hv htol hus
+    have hval := o.validateDomain_ok tol [[t0]] hdom
+    -- the call succeeds: it can only fail by the argument checks
+    have hok : ∃ r, o.derivativeGeneric tol [[t0]] [1] [a] true = .ok r := by
+      unfold Obj.derivativeGeneric
+      rw [if_neg (by simp), hval]
+      simp [hr]
+    obtain ⟨r, hrr⟩ := hok
+    refine ⟨r, hrr, ?_⟩
+    obtain ⟨-, ps, hps, hget⟩ :=
+      Obj.derivativeGeneric_rational_get o tol [[t0]] [1] [a] true r hr (by simp) hrr
+    rw [hval] at hps
+    injection hps with hps
+    subst hps
+    have hsz : 0 < (o.homJet tol (o.snapParams tol [[t0]]) [1] [a] true).size / o.ncomp := by
+      rw [Obj.homJet1_size hb hs, hnc]; simp
+    have h := hget 0 c (by rw [hdim']; exact hc) hsz
+    have e0 : 0 * o.dimension + c = c := by simp
+    rw [e0] at h
+    rw [h]
+    have k0c := Obj.homJet1_spec hb hv hper hs htol [t0] 0 a (i := 0) (c := c) (by simp) (by omega) hadm' hnot'
+    have k1c := Obj.homJet1_spec hb hv hper hs htol [t0] 1 a (i := 0) (c := c) (by simp) (by omega) hadm' hnot'
+    have k0w := Obj.homJet1_spec hb hv hper hs htol [t0] 0 a (i := 0) (c := dim) (by simp) (by omega) hadm' hnot'
+    have k1w := Obj.homJet1_spec hb hv hper hs htol [t0] 1 a (i := 0) (c := dim) (by simp) (by omega) hadm' hnot'
+    simp only [List.map_cons, List.map_nil, hnc, hdim', Nat.zero_mul, Nat.zero_add, List.getD_cons_zero]
+      at k0c k1c k0w k1w ⊢
+    rw [k0c, k1c, k0w, k1w]
+    exact hasDerivWithinAt_quot1 (hdn 0) (hdW 0) hW
+  · have h := Obj.curveDerivativeRational_get_two o tol [t0] a 0 c (by rw [hdim']; exact hc) (by simp)
+    have e0 : 0 * o.dimension + c = c := by simp
+    rw [e0] at h
+    rw [h, jn 0, jn 1, jn 2, jW 0, jW 1, jW 2]
+    exact hasDerivWithinAt_quot2 (hdn 0) (hdn 1) (hdW 0) (hdW 1) hW
+  · have h := Obj.curveDerivativeRational_get_three o tol [t0] a 0 c (by rw [hdim']; exact hc) (by simp)
+    have e0 : 0 * o.dimension + c = c := by simp
+    rw [e0] at h
+    rw [h, jn 0, jn 1, jn 2, jn 3, jW 0, jW 1, jW 2, jW 3]
+    exact hasDerivWithinAt_quot3 (hdn 0) (hdn 1) (hdn 2) (hdW 0) (hdW 1) (hdW 2) hW
+
+/-- **The quotient chain on a whole knot span** (specification level, any knots/coefficients): at every point
+`t` of a non-empty span (on the side `s`) with non-zero weight sum, `first(n₀,n₁,W₀,W₁)` is the one-sided
+derivative of `n₀/W₀`, `curveD2(…)` that of `first(…)`, `curveD3(…)` that of `curveD2(…)`. -/
+theorem C03_quotient_chain (s : Side) (τ : ℕ → ℝ) (hτ : Monotone τ) (μ q n : ℕ) (Pc Pw : ℕ → ℝ) (t : ℝ)
+    (h : s.mem (τ μ) (τ (μ+1)) t) :
+    let nJ : ℕ → ℝ → ℝ := fun k x => splineDeriv s τ q n Pc k x
+    let WJ : ℕ → ℝ → ℝ := fun k x => splineDeriv s τ q n Pw k x
+    WJ 0 t ≠ 0 →
+    HasDerivWithinAt (fun x => nJ 0 x / WJ 0 x)
+      (RatDeriv.first (nJ 0 t) (nJ 1 t) (WJ 0 t) (WJ 1 t)) (sideSet s t) t ∧
+    HasDerivWithinAt (fun x => RatDeriv.first (nJ 0 x) (nJ 1 x) (WJ 0 x) (WJ 1 x))
+      (RatDeriv.curveD2 (nJ 0 t) (nJ 1 t) (nJ 2 t) (WJ 0 t) (WJ 1 t) (WJ 2 t)) (sideSet s t) t ∧
+    HasDerivWithinAt (fun x => RatDeriv.curveD2 (nJ 0 x) (nJ 1 x) (nJ 2 x) (WJ 0 x) (WJ 1 x) (WJ 2 x))
+      (RatDeriv.curveD3 (nJ 0 t) (nJ 1 t) (nJ 2 t) (nJ 3 t) (WJ 0 t) (WJ 1 t) (WJ 2 t) (WJ 3 t))
+      (sideSet s t) t := by
+  intro nJ WJ hW
+  have hdn : ∀ k, HasDerivWithinAt (nJ k) (nJ (k+1) t) (sideSet s t) t := fun k =>
+    hasDerivWithinAt_splineDeriv s τ hτ μ q n Pc k t h
+  have hdW : ∀ k, HasDerivWithinAt (WJ k) (WJ (k+1) t) (sideSet s t) t := fun k =>
+    hasDerivWithinAt_splineDeriv s τ hτ μ q n Pw k t h
+  exact ⟨hasDerivWithinAt_quot1 (hdn 0) (hdW 0) hW,
+    hasDerivWithinAt_quot2 (hdn 0) (hdn 1) (hdW 0) (hdW 1) hW,
+    hasDerivWithinAt_quot3 (hdn 0) (hdn 1) (hdn 2) (hdW 0) (hdW 1) (hdW 2) hW⟩
+
+/-- **Rational curve over ℝ: `derivative(d)` is the `d`-th iterated one-sided derivative of the evaluated map**,
+`d = 1, 2, 3` (Mathlib's `iteratedDerivWithin` on `[t₀,∞)` for `above=True`, on `(-∞,t₀]` for `above=False`;
+same setting as `C03_rational_curve_real`). -/
+theorem C03_rational_curve_iterated {o : Obj ℝ} {b : Basis ℝ} (hb : o.bases = #[b]) (hv : b.Valid)
+    (hper : b.periodic = -1) {dim : ℕ} (hs : o.cps.shape = [b.numFunctions, dim + 1])
+    (hr : o.rational = true) {tol : ℝ} (htol : 0 < tol) (t0 : ℝ) (hadm : b.Admissible tol t0)
+    (a : Bool) (hnot : ¬ (t0 = b.start ∧ a = false)) {c : ℕ} (hc : c < dim) :
+    let s := effSide b t0 a
+    let x : ℝ → ℝ := fun t =>
+      splineDeriv s b.kn (b.order - 1) b.numFunctions (fun j => o.cps.get (j * (dim + 1) + c)) 0 t /
+      splineDeriv s b.kn (b.order - 1) b.numFunctions (fun j => o.cps.get (j * (dim + 1) + dim)) 0 t
+    splineDeriv s b.kn (b.order - 1) b.numFunctions (fun j => o.cps.get (j * (dim + 1) + dim)) 0 t0 ≠ 0 →
+    (∃ r, o.derivativeGeneric tol [[t0]] [1] [a] true = .ok r ∧
+      iteratedDerivWithin 1 x (sideSet s t0) t0 = r.get c) ∧
+    iteratedDerivWithin 2 x (sideSet s t0) t0 = (o.curveDerivativeRational tol [t0] 2 a).get c ∧
+    iteratedDerivWithin 3 x (sideSet s t0) t0 = (o.curveDerivativeRational tol [t0] 3 a).get c := by
+  intro s x hW
+  have hin := hadm.2.1 hper
+  obtain ⟨μ, hμ⟩ := C03_exists_span hv hin.1 hin.2 a hnot
+  have hU : UniqueDiffWithinAt ℝ (sideSet s t0) t0 := by
+    unfold sideSet
+    cases s
+    · exact uniqueDiffOn_Ici t0 t0 Set.self_mem_Ici
+    · exact uniqueDiffOn_Iic t0 t0 Set.self_mem_Iic
+  obtain ⟨⟨r, hr1, hd1⟩, hd2, hd3⟩ :=
+    C03_rational_curve_real hb hv hper hs hr htol t0 hadm a hnot hc hW
+  obtain ⟨i1, i2, i3⟩ := iteratedDerivWithin_quotient s b.kn hv.kn_mono μ (b.order - 1) b.numFunctions
+    (fun j => o.cps.get (j * (dim + 1) + c)) (fun j => o.cps.get (j * (dim + 1) + dim)) t0 hμ hW
+  obtain ⟨q1, q2, q3⟩ := C03_quotient_chain s b.kn hv.kn_mono μ (b.order - 1) b.numFunctions
+    (fun j => o.cps.get (j * (dim + 1) + c)) (fun j => o.cps.get (j * (dim + 1) + dim)) t0 hμ hW
+  refine ⟨⟨r, hr1, ?_⟩, ?_, ?_⟩
+  · rw [i1]; exact hU.eq_deriv _ q1 hd1
+  · rw [i2]; exact hU.eq_deriv _ q2 hd2
+  · rw [i3]; exact hU.eq_deriv _ q3 hd3
+
+/-- **Rational surface over ℝ, first-order partials.**  `o` a rational surface on valid bases, `(u₀, v₀)`
+admissible.  For the `u`-partial (`d=(1,0)`): `b1` non-periodic, `u₀` not its start approached from the left;
+`s = effSide b1 u₀ a₁`; with the `u`-coefficients (the `v`-direction already contracted at `v₀` from the side `a₂`)
+`cN j₁ = Σ_{j₂} rowSpec²(v₀,a₂)_{j₂} P[j₁,j₂,c]`, `cW j₁ = Σ_{j₂} rowSpec²(v₀,a₂)_{j₂} w[j₁,j₂]`, the map
+`u ↦ x(u, v₀) = (Σ cN·B(u)) / (Σ cW·B(u))` is the evaluated map along the line `v = v₀`, and
+`derivative(u₀, v₀, d=(1,0), above=(a₁,a₂))` is its one-sided derivative at `u₀` (`HasDerivWithinAt`).
+Symmetrically for the `v`-partial (`d=(0,1)`). -/
+theorem C03_rational_surface_real {o : Obj ℝ} {b1 b2 : Basis ℝ} (hb : o.bases = #[b1, b2])
+    (hv1 : b1.Valid) (hv2 : b2.Valid) {dim : ℕ}
+    (hs : o.cps.shape = [b1.numFunctions, b2.numFunctions, dim + 1]) (hr : o.rational = true)
+    {tol : ℝ} (htol : 0 < tol) (u0 v0 : ℝ) (hu : b1.Admissible tol u0) (hvv : b2.Admissible tol v0)
+    (a1 a2 : Bool) {c : ℕ} (hc : c < dim) :
+    (b1.periodic = -1 → ¬ (u0 = b1.start ∧ a1 = false) →
+      let s := effSide b1 u0 a1
+      let cf : ℕ → ℕ → ℝ := fun cc j1 => ∑ j2 ∈ Finset.range b2.numFunctions,
+        b2.rowSpec v0 a2 0 j2 * o.cps.get ((j1 * b2.numFunctions + j2) * (dim + 1) + cc)
+      let nJ : ℕ → ℝ → ℝ := fun k u => splineDeriv s b1.kn (b1.order - 1) b1.numFunctions (cf c) k u
+      let WJ : ℕ → ℝ → ℝ := fun k u => splineDeriv s b1.kn (b1.order - 1) b1.numFunctions (cf dim) k u
+      WJ 0 u0 ≠ 0 →
+      ∃ r, o.derivativeGeneric tol [[u0], [v0]] [1, 0] [a1, a2] true = .ok r ∧
+        HasDerivWithinAt (fun u => nJ 0 u / WJ 0 u) (r.get c) (sideSet s u0) u0) ∧
+    (b2.periodic = -1 → ¬ (v0 = b2.start ∧ a2 = false) →
+      let s := effSide b2 v0 a2
+      let cf : ℕ → ℕ → ℝ := fun cc j2 => ∑ j1 ∈ Finset.range b1.numFunctions,
+        b1.rowSpec u0 a1 0 j1 * o.cps.get ((j1 * b2.numFunctions + j2) * (dim + 1) + cc)
+      let nJ : ℕ → ℝ → ℝ := fun k v => splineDeriv s b2.kn (b2.order - 1) b2.numFunctions (cf c) k v
+      let WJ : ℕ → ℝ → ℝ := fun k v => splineDeriv s b2.kn (b2.order - 1) b2.numFunctions (cf dim) k v
+      WJ 0 v0 ≠ 0 →
+      ∃ r, o.derivativeGeneric tol [[u0], [v0]] [0, 1] [a1, a2] true = .ok r ∧
+        HasDerivWithinAt (fun v => nJ 0 v / WJ 0 v) (r.get c) (sideSet s v0) v0) := by
+  obtain ⟨hnc, hdim⟩ := Obj.dimension_of_shape (o := o) (pre := [b1.numFunctions, b2.numFunctions])
+    (nc := dim + 1) hs
+  have hdim' : o.dimension = dim := by rw [hdim, hr]; simp
+  have hus : ∀ u ∈ [u0], b1.Admissible tol u := by intro u h; simp at h; rw [h]; exact hu
+  have hvs : ∀ v ∈ [v0], b2.Admissible tol v := by intro v h; simp at h; rw [h]; exact hvv
+  have hdom := Obj.not_outOfDomain2 hb hv1 hv2 htol hus hvs
+  have hval := o.validateDomain_ok tol [[u0], [v0]] hdom
+  have hu' : b1.Admissible tol ([u0].getD 0 0) := by simpa using hu
+  have hv' : b2.Admissible tol ([v0].getD 0 0) := by simpa using hvv
+  have hsz : ∀ d1 d2, 0 < (o.homJet tol (o.snapParams tol [[u0], [v0]]) [d1, d2] [a1, a2] true).size
+      / o.ncomp := by
+    intro d1 d2; rw [Obj.homJet2_size hb hs, hnc]; simp
+  have hok : ∀ d1 d2, d1 + d2 = 1 →
+      ∃ r, o.derivativeGeneric tol [[u0], [v0]] [d1, d2] [a1, a2] true = .ok r := by
+    intro d1 d2 hd
+    unfold Obj.derivativeGeneric
+    rw [if_neg (by simp), hval]
+    have h1 : ¬ [d1, d2].sum > 1 := by simp; omega
+    have h0 : ¬ [d1, d2].sum = 0 := by simp; omega
+    simp only [hr, if_true]
+    rw [if_neg h1, if_neg h0]
+    exact ⟨_, rfl⟩
+  constructor
+  · intro hper hnot s cf nJ WJ hW
+    have hin := hu.2.1 hper
+    obtain ⟨μ, hμ⟩ := C03_exists_span hv1 hin.1 hin.2 a1 hnot
+    have hnot' : ¬ (([u0] : List ℝ).getD 0 0 = b1.start ∧ a1 = false) := by simpa using hnot
+    obtain ⟨r, hrr⟩ := hok 1 0 rfl
+    refine ⟨r, hrr, ?_⟩
+    obtain ⟨-, ps, hps, hget⟩ :=
+      Obj.derivativeGeneric_rational_get o tol [[u0], [v0]] [1, 0] [a1, a2] true r hr (by simp) hrr
+    rw [hval] at hps
+    injection hps with hps
+    subst hps
+    have h := hget 0 c (by rw [hdim']; exact hc) (hsz 1 0)
+    have e0 : 0 * o.dimension + c = c := by simp
+    rw [e0] at h
+    rw [h]
+    have k0c := Obj.homJet2_spec_u hb hv1 hv2 hper hs htol [u0] [v0] 0 0 a1 a2 (i1 := 0) (i2 := 0)
+      (c := c) (by simp) (by simp) (by omega) hu' hv' hnot'
+    have k1c := Obj.homJet2_spec_u hb hv1 hv2 hper hs htol [u0] [v0] 1 0 a1 a2 (i1 := 0) (i2 := 0)
+      (c := c) (by simp) (by simp) (by omega) hu' hv' hnot'
+    have k0w := Obj.homJet2_spec_u hb hv1 hv2 hper hs htol [u0] [v0] 0 0 a1 a2 (i1 := 0) (i2 := 0)
+      (c := dim) (by simp) (by simp) (by omega) hu' hv' hnot'
+    have k1w := Obj.homJet2_spec_u hb hv1 hv2 hper hs htol [u0] [v0] 1 0 a1 a2 (i1 := 0) (i2 := 0)
+      (c := dim) (by simp) (by simp) (by omega) hu' hv' hnot'
+    simp only [List.map_cons, List.map_nil, hnc, hdim', Nat.zero_mul, Nat.zero_add, List.getD_cons_zero,
+      List.length_cons, List.length_nil] at k0c k1c k0w k1w ⊢
+    rw [k0c, k1c, k0w, k1w]
+    exact hasDerivWithinAt_quot1
+      (hasDerivWithinAt_splineDeriv s b1.kn hv1.kn_mono μ _ _ _ 0 u0 hμ)
+      (hasDerivWithinAt_splineDeriv s b1.kn hv1.kn_mono μ _ _ _ 0 u0 hμ) hW
+  · intro hper hnot s cf nJ WJ hW
+    have hin := hvv.2.1 hper
+    obtain ⟨μ, hμ⟩ := C03_exists_span hv2 hin.1 hin.2 a2 hnot
+    have hnot' : ¬ (([v0] : List ℝ).getD 0 0 = b2.start ∧ a2 = false) := by simpa using hnot
+    obtain ⟨r, hrr⟩ := hok 0 1 rfl
+    refine ⟨r, hrr, ?_⟩
+    obtain ⟨-, ps, hps, hget⟩ :=
+      Obj.derivativeGeneric_rational_get o tol [[u0], [v0]] [0, 1] [a1, a2] true r hr (by simp) hrr
+    rw [hval] at hps
+    injection hps with hps
+    subst hps
+    have h := hget 0 c (by rw [hdim']; exact hc) (hsz 0 1)
+    have e0 : 0 * o.dimension + c = c := by simp
+    rw [e0] at h
+    rw [h]
+    have k0c := Obj.homJet2_spec_v hb hv1 hv2 hper hs htol [u0] [v0] 0 0 a1 a2 (i1 := 0) (i2 := 0)
+      (c := c) (by simp) (by simp) (by omega) hu' hv' hnot'
+    have k1c := Obj.homJet2_spec_v hb hv1 hv2 hper hs htol [u0] [v0] 0 1 a1 a2 (i1 := 0) (i2 := 0)
+      (c := c) (by simp) (by simp) (by omega) hu' hv' hnot'
+    have k0w := Obj.homJet2_spec_v hb hv1 hv2 hper hs htol [u0] [v0] 0 0 a1 a2 (i1 := 0) (i2 := 0)
+      (c := dim) (by simp) (by simp) (by omega) hu' hv' hnot'
+    have k1w := Obj.homJet2_spec_v hb hv1 hv2 hper hs htol [u0] [v0] 0 1 a1 a2 (i1 := 0) (i2 := 0)
+      (c := dim) (by simp) (by simp) (by omega) hu' hv' hnot'
+    simp only [List.map_cons, List.map_nil, hnc, hdim', Nat.zero_mul, Nat.zero_add, List.getD_cons_zero,
+      List.length_cons, List.length_nil] at k0c k1c k0w k1w ⊢
+    rw [k0c, k1c, k0w, k1w]
+    exact hasDerivWithinAt_quot1
+      (hasDerivWithinAt_splineDeriv s b2.kn hv2.kn_mono μ _ _ _ 0 v0 hμ)
+      (hasDerivWithinAt_splineDeriv s b2.kn hv2.kn_mono μ _ _ _ 0 v0 hμ) hW
+
+end real
 
 /-! ## Dispatch -/
 
@@ -619,6 +1169,64 @@ theorem C03_derivative_spline_model (o o' : Obj K) (tol : K) (dir : ℕ)
   · intro n j v hper hj hn
     exact derivativeMatrix_row_periodic (o.basis dir) n j hper hj hn v
 
+/-! ### Object level: `get_derivative_spline(dir).evaluate(u) = derivative(u, d=e_dir)` through the model evaluator -/
+
+section dsplineobj
+variable [IsStrictOrderedRing K]
+
+/-- **Curve.**  Non-rational curve on a valid, non-periodic basis of order ≥ 2 with clamped ends
+(`τ_0 = τ_{p-1}`, `τ_n = τ_{n+p-1}`).  If the model's `get_derivative_spline(0)` returns `o'`, then for
+admissible parameters `o'.evaluate(us)` and `o.derivative(us, d=1)` both succeed (through the MODEL evaluator
+and the MODEL derivative) and agree entry by entry. -/
+theorem C03_derivative_spline_obj_curve {o o' : Obj K} {b : Basis K} (hb : o.bases = #[b]) (hv : b.Valid)
+    (hper : b.periodic = -1) (hp : 2 ≤ b.order)
+    (hc0 : b.kn (b.order - 1) = b.kn 0) (hcN : b.kn (b.nAll + b.order - 1) = b.kn b.nAll)
+    {nc : ℕ} (hs : o.cps.shape = [b.numFunctions, nc]) (hr : o.rational = false) {tol : K}
+    (htol : 0 < tol) (h : o.getDerivativeSpline tol 0 = .ok o') {us : List K}
+    (hus : ∀ u ∈ us, b.Admissible tol u) :
+    ∃ rv rd, o'.evaluate tol [us] true = .ok rv ∧
+      o.derivativeGeneric tol [us] [1] [true] true = .ok rd ∧
+      ∀ i c, i < us.length → c < nc → rv.get (i * nc + c) = rd.get (i * nc + c) :=
+  Obj.derivSpline_curve hb hv hper hp hc0 hcN hs hr htol h hus
+
+/-- **Surface, first direction**: `get_derivative_spline(0).evaluate(us, vs) = derivative(us, vs, d=(1,0))`
+(first basis clamped non-periodic of order ≥ 2; second basis any valid basis, periodic or not). -/
+theorem C03_derivative_spline_obj_surface_u {o o' : Obj K} {b1 b2 : Basis K} (hb : o.bases = #[b1, b2])
+    (hv1 : b1.Valid) (hv2 : b2.Valid) (hper : b1.periodic = -1) (hp : 2 ≤ b1.order)
+    (hc0 : b1.kn (b1.order - 1) = b1.kn 0) (hcN : b1.kn (b1.nAll + b1.order - 1) = b1.kn b1.nAll)
+    {nc : ℕ} (hs : o.cps.shape = [b1.numFunctions, b2.numFunctions, nc]) (hr : o.rational = false)
+    {tol : K} (htol : 0 < tol) (h : o.getDerivativeSpline tol 0 = .ok o') {us vs : List K}
+    (hus : ∀ u ∈ us, b1.Admissible tol u) (hvs : ∀ v ∈ vs, b2.Admissible tol v) :
+    ∃ rv rd, o'.evaluate tol [us, vs] true = .ok rv ∧
+      o.derivativeGeneric tol [us, vs] [1, 0] [true, true] true = .ok rd ∧
+      ∀ i1 i2 c, i1 < us.length → i2 < vs.length → c < nc →
+        rv.get ((i1 * vs.length + i2) * nc + c) = rd.get ((i1 * vs.length + i2) * nc + c) :=
+  Obj.derivSpline_surface_u hb hv1 hv2 hper hp hc0 hcN hs hr htol h hus hvs
+
+/-- **Surface, second direction**: `get_derivative_spline(1).evaluate(us, vs) = derivative(us, vs, d=(0,1))`. -/
+theorem C03_derivative_spline_obj_surface_v {o o' : Obj K} {b1 b2 : Basis K} (hb : o.bases = #[b1, b2])
+    (hv1 : b1.Valid) (hv2 : b2.Valid) (hper : b2.periodic = -1) (hp : 2 ≤ b2.order)
+    (hc0 : b2.kn (b2.order - 1) = b2.kn 0) (hcN : b2.kn (b2.nAll + b2.order - 1) = b2.kn b2.nAll)
+    {nc : ℕ} (hs : o.cps.shape = [b1.numFunctions, b2.numFunctions, nc]) (hr : o.rational = false)
+    {tol : K} (htol : 0 < tol) (h : o.getDerivativeSpline tol 1 = .ok o') {us vs : List K}
+    (hus : ∀ u ∈ us, b1.Admissible tol u) (hvs : ∀ v ∈ vs, b2.Admissible tol v) :
+    ∃ rv rd, o'.evaluate tol [us, vs] true = .ok rv ∧
+      o.derivativeGeneric tol [us, vs] [0, 1] [true, true] true = .ok rd ∧
+      ∀ i1 i2 c, i1 < us.length → i2 < vs.length → c < nc →
+        rv.get ((i1 * vs.length + i2) * nc + c) = rd.get ((i1 * vs.length + i2) * nc + c) :=
+  Obj.derivSpline_surface_v hb hv1 hv2 hper hp hc0 hcN hs hr htol h hus hvs
+
+/-- The derivative basis of a valid non-periodic basis of order ≥ 2 is valid, has one function less, the same
+domain, and keeps admissible parameters admissible. -/
+theorem C03_derivative_basis_valid {b nb : Basis K} (h : IsDerivBasis b nb) (hv : b.Valid)
+    (hper : b.periodic = -1) (hp : 2 ≤ b.order) :
+    nb.Valid ∧ nb.numFunctions = b.numFunctions - 1 ∧ nb.start = b.start ∧ nb.stop = b.stop ∧
+      ∀ tol u, b.Admissible tol u → nb.Admissible tol u :=
+  ⟨h.valid hv hp, h.numFunctions hper hp hv, h.start_eq hv hp, h.stop_eq hv hp,
+    fun _ _ hu => h.admissible hv hper hp hu⟩
+
+end dsplineobj
+
 /-! ## Tangents -/
 
 /-- **The tangent is the first derivative** (before the division by the speed): for curves and surfaces
@@ -689,12 +1297,8 @@ example : let τ : ℕ → ℚ := fun i => if i < 3 then 0 else 1
 example : soundOn curveOutcome 1 (ints 5 ++ tuples 1 5 ++ lists 1 5) = true := by decide
 example : soundOn surfaceOutcome 2 (ints 4 ++ tuples 2 4 ++ lists 2 4) = true := by decide
 
-/-- `C03_GoodPoints` is satisfiable (the open example basis of C01, `t = 1/2`, from the right). -/
-example : C03_GoodPoints (K := ℚ) C01_exOpen (1/1000) [1/2] true := by
-  intro k hk
-  have hk0 : k = 0 := by simpa using hk
-  subst hk0
-  refine ⟨by simpa using C01_exOpen_exact_half, ?_, ?_, ?_⟩
-  · rw [C01_exOpen_start]; norm_num
-  · rw [C01_exOpen_stop]; norm_num
-  · intro _ h; exact absurd h.2 (by decide)
+/-- The clamped-end hypotheses of `C03_derivative_spline_obj_*` hold for the linear basis `[0,0,1,1]` of C02. -/
+example : C02_exLin.kn (C02_exLin.order - 1) = C02_exLin.kn 0 ∧
+    C02_exLin.kn (C02_exLin.nAll + C02_exLin.order - 1) = C02_exLin.kn C02_exLin.nAll ∧
+    2 ≤ C02_exLin.order ∧ C02_exLin.periodic = -1 := by
+  refine ⟨?_, ?_, ?_, ?_⟩ <;> norm_num [Basis.kn, Basis.nAll, C02_exLin]
